@@ -67,13 +67,23 @@ def services_case(draw) -> dict[str, Any]:
     seed = draw(st.integers(0, 5000))
     params = draw(st.sampled_from([{"p_session": 0.5, "optional_sessions": [2, 3, 4]}, {"p_session": 1.0, "optional_sessions": [2, 3], "p_service": 0.4},
                                    {"p_session": 0.3, "p_service": 0.6, "optional_sessions": [2, 3, 0x40, 0x60]}, {}]))
-    sessions = draw(st.one_of(st.none(), st.lists(st.sampled_from([1, 2, 3, 4, 0x40, 0x60, 0x55]), min_size=1, max_size=4)))
+    fallback = draw(st.integers(0, 3)) == 0  # an ECU that falls out of the scanned session, met by a scanner with session checks
+    if fallback:
+        # every session directly reachable from the default session; the session read is offered in some sessions only
+        params = draw(st.sampled_from([{"p_session": 1.0, "optional_sessions": [2, 3, 4], "p_service": 0.5}, {"p_session": 1.0, "optional_sessions": [2, 3], "p_service": 0.4},
+                                       {"p_session": 1.0, "optional_sessions": [2, 3, 4], "p_service": 0.8}]))
+        sessions = draw(st.lists(st.sampled_from([1, 2, 3, 4]), min_size=2, max_size=4))
+    else:
+        sessions = draw(st.one_of(st.none(), st.lists(st.sampled_from([1, 2, 3, 4, 0x40, 0x60, 0x55]), min_size=1, max_size=4)))
     skip: dict[int, list[int] | None] = {}
     if sessions and draw(st.booleans()):
         for s in draw(st.lists(st.sampled_from(sessions + [7]), unique=True, max_size=2)):
-            skip[s] = draw(st.one_of(st.none(), st.lists(st.sampled_from([0x10, 0x11, 0x22, 0x27, 0x3E, 0x85, 0x00, 0xFF, 0x31, 0x2E]), unique=True, min_size=1, max_size=4).map(sorted)))
+            skip[s] = draw(st.one_of(st.none(), st.lists(st.sampled_from([0x10, 0x11, 0x22, 0x27, 0x3E, 0x85, 0x00, 0xFF, 0x31, 0x2E]), unique=True, min_size=0, max_size=4).map(sorted)))
+    drop_s = st.lists(st.sampled_from([0x00, 0x11, 0x14, 0x22, 0x27, 0x2E, 0x31, 0x85, 0xA0, 0xFE]), unique=True, min_size=1, max_size=3).map(sorted)
     return {"kind": "services", "seed": seed, "params": params, "sessions": sessions, "skip": {str(k): v for k, v in skip.items()},
-            "scan_response_ids": draw(st.booleans()), "check_session": draw(st.booleans()), "tester_present": draw(st.booleans())}
+            "scan_response_ids": draw(st.booleans()), "check_session": True if fallback else draw(st.booleans()), "tester_present": draw(st.booleans()),
+            # the ECU falls back to the default session after it has finished answering the probes of these service ids
+            "drop": draw(drop_s) if fallback else []}
 
 
 @st.composite
@@ -92,7 +102,7 @@ def identifiers_case(draw) -> dict[str, Any]:
     skip: dict[int, list[int] | None] = {}
     if sessions and draw(st.booleans()):
         s = draw(st.sampled_from(sessions))
-        skip[s] = draw(st.one_of(st.none(), st.lists(st.integers(start, end), unique=True, min_size=1, max_size=5).map(sorted)))
+        skip[s] = draw(st.one_of(st.none(), st.lists(st.integers(start, end), unique=True, min_size=0, max_size=5).map(sorted)))
     payload = draw(st.sampled_from([None, None, "00", "0102", "ff"])) if svc != 0x22 else None
     return {"kind": "identifiers", "seed": seed, "params": params, "service": svc, "start": start, "end": end, "sessions": sessions,
             "skip": {str(k): v for k, v in skip.items()}, "payload": payload, "check_session": draw(st.sampled_from([None, None, 1, 7]))}
@@ -109,6 +119,25 @@ def enterable(model: dict[int, dict[int, list[int] | None]], sessions: list[int]
     return out
 
 
+def drop_effective(case: dict[str, Any], server: Any) -> list[int]:
+    """Service ids after whose probes the ECU falls back to the default session (a reset / S3 expiry). Only used where the scanner
+    is in a position to notice and repair it before the next service id: session checks enabled, the default session answers the
+    session read (22 F1 86), and every requested session can be entered directly from the default session."""
+    drop = case.get("drop") or []
+    if not drop or not case["check_session"] or not case["sessions"]:
+        return []
+    clone = vecu.make_server(case["seed"], case["params"], [])
+    clone.randomize()
+    model = vecu.model_dict(clone)
+    rep = clone_answers(case["seed"], case["params"], 1, [b"\x22\xf1\x86"])[0]
+    if rep is None or rep[0] != 0x62:
+        return []
+    offered = (model.get(1, {}).get(0x10) or [])
+    if any(s != 1 and s in model and s not in offered for s in case["sessions"]):
+        return []
+    return list(drop)
+
+
 def check(case: dict[str, Any]) -> list[tuple[str, str]]:
     return check_services(case) if case["kind"] == "services" else check_identifiers(case)
 
@@ -121,8 +150,17 @@ def check_services(case: dict[str, Any]) -> list[tuple[str, str]]:
     cfg = ServicesScannerConfig(target="tcp-lines://127.0.0.1:1", sessions=case["sessions"], skip=skip_text(skip) if skip else {},
                                 scan_response_ids=case["scan_response_ids"], check_session=case["check_session"], dumpcap=False, timeout=0.5,
                                 properties=False, tester_present=case["tester_present"])
-    r = run_scanner(ServicesScanner, cfg, server, budget=60000)
-    ctx = f"services seed={case['seed']} params={case['params']} sessions={case['sessions']} skip={skip} response_ids={case['scan_response_ids']} check_session={case['check_session']}"
+    drop = set(drop_effective(case, server))
+
+    def after_reply(srv: Any, data: bytes, reply: bytes | None) -> None:
+        if data[0] in drop and len(data) in (2, 3, 4, 6) and data[1:] == bytes(len(data) - 1):
+            terminal = len(data) == 6 or (reply is not None and not (reply[0] == 0x7F and len(reply) == 3 and reply[2] == 0x13))
+            if terminal:
+                srv.state.session = 1
+
+    r = run_scanner(ServicesScanner, cfg, server, budget=60000, after_reply=after_reply if drop else None)
+    ctx = (f"services seed={case['seed']} params={case['params']} sessions={case['sessions']} skip={skip} response_ids={case['scan_response_ids']} "
+           f"check_session={case['check_session']} ecu-falls-back-after={sorted(hex(x) for x in drop)}")
     if r["status"] != "ok":
         return [(f"C10/services/run-{r['status']}", f"{ctx}: {r['val']!r}")]
     rc = r["box"].get("rc")
@@ -263,7 +301,7 @@ def check_identifiers(case: dict[str, Any]) -> list[tuple[str, str]]:
 
 
 def nontrivial(case: dict[str, Any]) -> bool:
-    return bool(case["sessions"] and len(case["sessions"]) >= 2) or bool(case["skip"]) or (case["kind"] == "identifiers" and case["end"] > case["start"])
+    return bool(case["sessions"] and len(case["sessions"]) >= 2) or bool(case["skip"]) or bool(case.get("drop")) or (case["kind"] == "identifiers" and case["end"] > case["start"])
 
 
 def shards(tier: str) -> list[dict[str, Any]]:
@@ -274,9 +312,12 @@ def shards(tier: str) -> list[dict[str, Any]]:
 def run_shard(spec: dict[str, Any], seed: int) -> Collector:
     col = Collector()
 
+    res_fb: dict[str, bool] = {}
+
     def body(case: dict[str, Any]) -> None:
         res = check(case)
-        col.case(str(case), nontrivial(case), cls=case["kind"] + ("/sessions" if case["sessions"] else "/current") + ("/skip" if case["skip"] else "")
+        res_fb["on"] = case["kind"] == "services" and bool(drop_effective(case, None))
+        col.case(str(case), nontrivial(case), cls=case["kind"] + ("/sessions" if case["sessions"] else "/current") + ("/skip" if case["skip"] else "") + ("/fallback" if res_fb.get("on") else "")
                  + (f"/svc{case['service']:02x}" if case["kind"] == "identifiers" else ""), sample=case)
         for b, m in res:
             col.violation(b, case, m)
